@@ -70,12 +70,46 @@ func C09(c *Ctx) {
 				continue
 			}
 			if !IsNilConst(s.per) {
-				// prefix acknowledged with nil: needs its own sync
-				ok, n := MustPrecede(fn, in, instrs(syncCalls))
-				if ok || syncOffEdgeDominates(fn, in) {
-					c.Pass(r1, k, s.call.Pos(), n, "partial-batch acknowledgement lies behind wal.Sync")
-				} else {
+				// prefix acknowledged with nil: needs its own sync, whose failure is handled
+				offEdges := map[[2]*ssa.BasicBlock]bool{}
+				for _, b := range fn.Blocks {
+					if ifi := ifOf(b); ifi != nil && isFieldLoad(ifi.Cond, "NoKV.Options", "SyncWrites") {
+						offEdges[[2]*ssa.BasicBlock{b, b.Succs[1]}] = true
+					}
+				}
+				// only syncs executed after applyRequests count
+				var after []ssa.Instruction
+				for _, sc := range syncCalls {
+					for _, ap := range Calls(fn, false, Named("NoKV.(*DB).applyRequests")) {
+						if Dominates(ap.(ssa.Instruction), sc.(ssa.Instruction)) {
+							after = append(after, sc.(ssa.Instruction))
+						}
+					}
+				}
+				var start ssa.Instruction
+				if aps := Calls(fn, false, Named("NoKV.(*DB).applyRequests")); len(aps) > 0 {
+					start = aps[0].(ssa.Instruction)
+				}
+				// a sync that ran only on the apply-success path does not cover the failure path:
+				// require that from applyRequests, along paths where its error is non-nil, a Sync precedes the ack
+				reach, n := CutReach(fn, start, in, after, mergeEdges(offEdges, applyOKEdges(fn)))
+				tested := true
+				for _, sc := range syncCalls {
+					if Dominates(sc.(ssa.Instruction), in) || len(after) > 0 {
+						ev := ErrResult(sc)
+						if ev == nil || len(NilEdges(fn, FlowSet(ev))) == 0 {
+							if ev == nil || ev.Referrers() == nil || len(*ev.Referrers()) == 0 {
+								tested = false
+							}
+						}
+					}
+				}
+				if !reach && tested {
+					c.Pass(r1, k, s.call.Pos(), n, "partial-batch acknowledgement lies behind wal.Sync (or the SyncWrites==false edge) on every path from a failed applyRequests, and the sync result is examined")
+				} else if reach {
 					c.Fail(r1, k, s.call.Pos(), n, "requests before the failing one are acknowledged with a nil error but no wal.Sync (or SyncWrites==false edge) precedes this acknowledgement")
+				} else {
+					c.Fail(r1, k, s.call.Pos(), n, "the wal.Sync guarding the partial acknowledgement drops its error")
 				}
 				continue
 			}
@@ -255,6 +289,31 @@ func C09(c *Ctx) {
 var durablePkgs = map[string]bool{Module: true, Module + "/lsm": true, Module + "/wal": true, Module + "/vlog": true,
 	Module + "/manifest": true, Module + "/raftstore/engine": true, Module + "/raftstore/store": true, Module + "/raftstore/peer": true,
 	Module + "/file": true, Module + "/pd/storage": true, Module + "/utils": true}
+
+func mergeEdges(a, b map[[2]*ssa.BasicBlock]bool) map[[2]*ssa.BasicBlock]bool {
+	out := map[[2]*ssa.BasicBlock]bool{}
+	for k := range a {
+		out[k] = true
+	}
+	for k := range b {
+		out[k] = true
+	}
+	return out
+}
+
+// applyOKEdges: the err==nil edges of applyRequests' error in commitWorker (the
+// success path, which has its own sync handled by the def-use rule).
+func applyOKEdges(fn *ssa.Function) map[[2]*ssa.BasicBlock]bool {
+	out := map[[2]*ssa.BasicBlock]bool{}
+	for _, ap := range Calls(fn, false, Named("NoKV.(*DB).applyRequests")) {
+		if ev := ErrResult(ap); ev != nil {
+			for _, e := range NilEdges(fn, map[ssa.Value]bool{ev: true}) {
+				out[e.Nil] = true
+			}
+		}
+	}
+	return out
+}
 
 func ordinalIn(fn *ssa.Function, ci ssa.CallInstruction) int {
 	o := CalleeObj(ci.Common())
